@@ -272,7 +272,8 @@ class Universe(object):
 
 
 def build_universe(v, n_docs=1, n_secs=3, n_props=0, name_len=1,
-                   id_names=True, sec_types=("t",), name_alphabet=None, name_minlen=0):
+                   id_names=True, sec_types=("t",), name_alphabet=None, name_minlen=0,
+                   name_pool=None):
     """
     Append fresh detached objects in index order; the parent of object i is
     'detached' or any earlier container.  Every ordered forest with unique
@@ -296,7 +297,9 @@ def build_universe(v, n_docs=1, n_secs=3, n_props=0, name_len=1,
     for _ in range(n_docs):
         uni.docs.append(odml.Document())
     for i in range(n_secs):
-        if name_alphabet is not None:
+        if name_pool is not None:
+            name = v.pick("sname%d" % i, name_pool)
+        elif name_alphabet is not None:
             name = v.str("sname%d" % i, name_len, name_alphabet, minlen=1)
         else:
             name = sym_name(v, "sname%d" % i, name_len, uni.secs if id_names else (), minlen=name_minlen)
@@ -311,7 +314,9 @@ def build_universe(v, n_docs=1, n_secs=3, n_props=0, name_len=1,
                 v.assume(False)
         uni.secs.append(sec)
     for i in range(n_props):
-        if name_alphabet is not None:
+        if name_pool is not None:
+            name = v.pick("pname%d" % i, name_pool)
+        elif name_alphabet is not None:
             name = v.str("pname%d" % i, name_len, name_alphabet, minlen=1)
         else:
             name = sym_name(v, "pname%d" % i, name_len, uni.props if id_names else (), minlen=name_minlen)
